@@ -116,6 +116,13 @@ class Scaler(Transformer):
 
         # Convert None weights to ones
         self.weights_: DataVar = self._process_weights(X, weights)
+        # Weights derived from a coordinate (e.g. cos(lat)) carry that coordinate's name; such
+        # an array cannot be told from the coordinate itself when the model is serialized
+        if (
+            isinstance(self.weights_, xr.DataArray)
+            and self.weights_.name in self.weights_.coords
+        ):
+            self.weights_ = self.weights_.rename("weights_")
 
         if self.get_params()["compute"]:
             (self.mean_, self.std_, self.coslat_weights_, self.weights_) = dask.compute(
